@@ -119,6 +119,31 @@ def case_auto_selection(T, n):
         de.exact_diag, de.hutchinson_diag_estimate = o1, o2
 
 
+def case_view_then(T, n, k, first):
+    """exact probing of an operator whose product hands back its operand (or a view of it), followed by exact probing of an unrelated rule-less
+    operator of the same size and dtype in the same process: probe blocks must not be shared between calls in a way the first call can damage"""
+    dt = np.dtype('float64')
+    if first == "identity":
+        V = cola.no_dispatch(cola.ops.Identity((n, n), dt))
+        Vm = np.eye(n)
+    else:
+        V = cola.ops.LinearOperator(dt, (n, n), matmat=lambda X: X[::-1])
+        Vm = np.eye(n)[::-1]
+    B = T.arr("B", (n, n), 'float64')
+    Bop = cola.ops.LinearOperator(dt, (n, n), matmat=lambda X: B @ X)
+    from .common import rfrom
+    Bm = rfrom(T, B)
+    for rnd in (1, 2):
+        for kk in (k, 0):
+            T.eq(f"round {rnd}: diag(view-operator, {kk})", cola.linalg.diag(V, kk, Exact()), expected_arr(T, np.diag(Vm, kk), 'float64'), dtype=False)
+            T.eq(f"round {rnd}: diag(B, {kk}) after the view operator", cola.linalg.diag(Bop, kk, Exact()), expected_arr(T, np.diag(Bm, kk), 'float64'), dtype=False)
+        tot = 0
+        for i in range(n):
+            tot = tot + Bm[i, i]
+        T.eq(f"round {rnd}: trace(B) after the view operator", cola.linalg.trace(Bop, Exact()), expected_arr(T, tot, 'float64'), dtype=False)
+        T.eq(f"round {rnd}: trace(B) (automatic) after the view operator", cola.linalg.trace(Bop), expected_arr(T, tot, 'float64'), dtype=False)
+
+
 def ops_sum(A):
     return cola.ops.Sum(A, A)
 
@@ -156,6 +181,11 @@ def cases(tier, seed):
             G(["kron", ["dense", 2, 2, F8], ["dense", 3, 3, F8]]), ["nodispatch", ["sum", ["dense", 3, 3, F8], ["diag", 3, F8]]],
             ["sum", ["blockdiag", [["dense", 2, 2, F8]], [2]], ["kron", ["dense", 2, 2, F8], ["dense", 2, 2, F8]]],
             ["selfadj", 3, C16], ["psd", 3, F8]]
+    # sums in which the same operator object occurs twice (A + A, A + B + A, built by the overloads and by the constructor)
+    P32 = ["product", ["dense", 3, 2, F8], ["dense", 2, 3, F8]]
+    comp += [["dupsum", "plus", ["dense", 3, 3, F8], None], ["dupsum", "plus", ["dense", 3, 3, F8], ["diag", 3, F8]], ["dupsum", "ctor", ["diag", 3, C16], ["dense", 3, 3, F8]],
+             ["dupsum", "plus", P32, ["dense", 3, 3, F8]], ["dupsum", "ctor", G(["dense", 2, 2, F8]), None], ["dupsum", "plus", ["kron", ["dense", 2, 2, F8], ["dense", 2, 2, F8]], None],
+             ["dupsum", "plus", ["sum", ["dense", 2, 2, F8], ["diag", 2, F8]], ["scalar", 2, F8]], ["dupsum", "plus", ["identity", 3, F8], ["tridiag", 3, F8]]]
     for t in small + comp:
         n = tree_shape(t)[0]
         out.append((f"all-k:{tree_name(t)}", case_diag, dict(tree=t, ks=list(range(-(n - 1), n)), algs=["exact", "auto", "omitted"])))
@@ -184,6 +214,8 @@ def cases(tier, seed):
         out.append((f"auto-selection:n{n}", case_auto_selection, dict(n=n)))
     if tier == "quick":
         out.append(("big:generic(tridiag200)[k=-1]", case_diag, dict(tree=G(["tridiag", 200, F8]), ks=[-1], algs=["exact"]), dict(validate=False)))
+    for n, k, first in ((3, 1, "identity"), (3, -2, "identity"), (4, 0, "flip"), (3, 1, "flip"), (2, 0, "identity")):
+        out.append((f"view-then:{first}:n{n}k{k}", case_view_then, dict(n=n, k=k, first=first)))
     out.append(("big:dense210", case_diag, dict(tree=["diag", 210, F8], ks=[0, 3], algs=["auto"]), dict(validate=False)))
     return out
 
